@@ -76,9 +76,7 @@ impl FormMultipartData {
             let string = StringExt::filter_ascii_control_characters(&string);
             let string = StringExt::truncate_new_line_carriage_return(&string);
 
-            let _current_string_is_boundary =
-                string.replace(SYMBOL.hyphen, SYMBOL.empty_string)
-                    .ends_with(&boundary.replace(SYMBOL.hyphen, SYMBOL.empty_string));
+            let _current_string_is_boundary = FormMultipartData::is_boundary_line(string.as_bytes(), &boundary);
 
             if !_current_string_is_boundary {
                 let message = format!("Body in multipart/form-data request needs to start with a boundary, actual string: '{}'", string);
@@ -110,9 +108,7 @@ impl FormMultipartData {
             let string = StringExt::filter_ascii_control_characters(&string);
             current_string_is_empty = string.trim().len() == 0;
 
-            let _current_string_is_boundary =
-                string.replace(SYMBOL.hyphen, SYMBOL.empty_string)
-                    .ends_with(&boundary.replace(SYMBOL.hyphen, SYMBOL.empty_string));
+            let _current_string_is_boundary = FormMultipartData::is_boundary_line(string.as_bytes(), &boundary);
 
             if _current_string_is_boundary {
                 let message = "There is at least one missing body part in the multipart/form-data request";
@@ -163,16 +159,7 @@ impl FormMultipartData {
 
             bytes_read = bytes_read + bytes_offset as i128;
 
-            let escaped_dash_boundary = boundary.replace(SYMBOL.hyphen, SYMBOL.empty_string);
-
-            current_string_is_boundary = false;
-            if b.len() >= escaped_dash_boundary.len() {
-                let boxed_sequence = FormMultipartData::find_subsequence(b, escaped_dash_boundary.as_bytes());
-                if boxed_sequence.is_some() {
-                    current_string_is_boundary = true;
-                    _boundary_position = boxed_sequence.unwrap();
-                }
-            }
+            current_string_is_boundary = FormMultipartData::is_boundary_line(b, &boundary);
 
             if !current_string_is_boundary {
                 part.body.append(&mut buf.clone());
@@ -188,7 +175,7 @@ impl FormMultipartData {
         // body for specific part may end with a new line or carriage return and a new line
         // in both cases new line carriage return delimiter is not part of the body
         let body_length = part.body.len();
-        if body_length > 2 { // check if body itself is present
+        if body_length >= 2 { // the line break in front of the delimiter is there even when the body itself is empty
             let is_new_line_carriage_return_ending =
                 *part.body.get(body_length-2).unwrap() == b'\r'
                     && *part.body.get(body_length-1).unwrap() == b'\n';
@@ -231,6 +218,32 @@ impl FormMultipartData {
         Ok(boundary.to_string())
     }
 
+    /// a delimiter line is exactly the boundary, optionally with the two dashes that precede every delimiter and
+    /// the two dashes that follow the closing one ("boundary", "--boundary", "boundary--", "--boundary--")
+    fn is_boundary_line(line: &[u8], boundary: &str) -> bool {
+        let mut end = line.len();
+        while end > 0 && (line[end - 1] == b'\r' || line[end - 1] == b'\n' || line[end - 1] == b' ') {
+            end -= 1;
+        }
+        let line = &line[..end];
+        let boundary = boundary.trim().as_bytes();
+        if boundary.len() == 0 {
+            return false
+        }
+        let dashes : &[u8] = b"--";
+        let without_prefix = if line.starts_with(dashes) && line.len() >= boundary.len() + 2 { &line[2..] } else { line };
+        for candidate in [line, without_prefix] {
+            if candidate == boundary {
+                return true
+            }
+            if candidate.len() == boundary.len() + 2 && candidate.starts_with(boundary) && candidate.ends_with(dashes) {
+                return true
+            }
+        }
+        false
+    }
+
+    #[allow(dead_code)]
     fn find_subsequence(haystack: &[u8], needle: &[u8]) -> Option<usize> {
         haystack.windows(needle.len()).position(|window| window == needle)
     }
